@@ -238,7 +238,22 @@ def run_A(scn: Dict[str, Any], on, plugins=()) -> Dict[str, Any]:
         res["completed"] = True
         return _finish_result(res, mon, ctx)
     try:
-        runner._run()
+        if scn.get("recover_corr"):
+            # an inconsistent correlation circle is refused when the first values are generated - before any clock
+            # has moved; the user deletes one correlation, as the message says, and runs again on the same runner
+            try:
+                runner._run()
+            except Exception as e0:
+                if type(e0).__name__ != "LinAlgError":
+                    raise
+                mon.probe("run_refused_then_repeated")
+                a_, b_ = scn["recover_corr"]
+                f_ = runner.simulator.fundamentals
+                f_.remove_correlation(market_id1=runner.simulator.name2market[a_].market_id,
+                                      market_id2=runner.simulator.name2market[b_].market_id)
+                runner._run()
+        else:
+            runner._run()
         res["completed"] = True
     except Exception as e:
         res["error"] = classify_exception(e)
